@@ -12,7 +12,7 @@ b3 = np.array([0.5, -1.0, 0.0])
 
 
 EXP_ATOMS = ['exp', 'log', 'pexp', 'plog', 'softplus', 'entropy', 'expsum', 'sumexp', 'sumlog', 'sumpexp', 'sumplog', 'sumexpb', 'sumlogb',
-             'sumexp2s', 'sumexp2sY', 'sumexpnest']
+             'sumexp2s', 'sumexp2sY', 'sumexpnest', 'logn', 'sumlogn', 'spsumexp', 'entsumexp']
 EXP_FAMILY = EXP_ATOMS + ['kldiv', 'expcone']      # members decided under the cone-term abstraction
 
 
@@ -33,6 +33,17 @@ def exp_desc(a, atom, form):
         h, curv = a.sumexp(2.0 * x - b2), 1
     elif atom == 'sumlog':
         h, curv = a.sumlog(x + 2.5), -1
+    elif atom in ('spsumexp', 'entsumexp'):
+        # two atoms of different kinds in one model: softplus / entropy (which allocate further columns while the model is
+        # formulated) declared BEFORE a summed exp
+        s_ = a.dvar(())
+        a.st(a.le(s_, 10.0))
+        if atom == 'spsumexp':
+            a.st(a.le(a.softplus(x[0:1] - 0.5), s_))
+        else:
+            a.st(a.ge(a.entropy(x + 1.5), -s_))
+        a.st(a.ge(s_, 0.25 * x[1]))
+        h, curv = a.sumexp(2.0 * x - b2), 1
     elif atom == 'sumpexp':
         h, curv = a.sumpexp(x - 0.5, 2.0), 1            # pexp(., 2).sum(): sum of perspectives
     elif atom == 'sumplog':
@@ -52,6 +63,11 @@ def exp_desc(a, atom, form):
         h, curv = a.sumlog_bcast(x + 2.5, np.array([[0.5, -1.0], [0.25, 1.5]])), -1
     elif atom == 'log':
         h, curv = a.log(x + 2.5), -1
+    elif atom == 'logn':
+        # logarithms that take NEGATIVE values on part of the box (a lost positive factor is then unsound, not conservative)
+        h, curv = a.log(0.5 * x + 0.75), -1
+    elif atom == 'sumlogn':
+        h, curv = a.sumlog(0.5 * x + 0.75), -1
     elif atom == 'pexp':
         h, curv = a.pexp(x[0:1] - 0.5, x[1:2] + 2.0), 1
     elif atom == 'plog':
@@ -68,7 +84,7 @@ def exp_desc(a, atom, form):
             a.st(a.le(2.0 * h + lin, u))      # 1/2 is exact in binary (1/2.5 is not: the abstraction needs equal terms)
             a.min(u)
         elif form == 'obj':
-            if atom in ('sumexp', 'sumpexp', 'sumexpb', 'sumexp2s', 'sumexp2sY', 'sumexpnest'):
+            if atom in ('sumexp', 'sumpexp', 'sumexpb', 'sumexp2s', 'sumexp2sY', 'sumexpnest', 'spsumexp', 'entsumexp'):
                 a.min(h - lin)
             else:
                 a.st(a.le(h, u))
@@ -87,7 +103,7 @@ def exp_desc(a, atom, form):
             a.st(a.ge(2.0 * h + lin, u))
             a.max(u)
         elif form == 'obj':
-            if atom in ('entropy', 'sumlog', 'sumplog', 'sumlogb'):
+            if atom in ('entropy', 'sumlog', 'sumplog', 'sumlogb', 'sumlogn'):
                 a.max(h + lin)
             else:
                 a.st(a.ge(h, u))
@@ -141,6 +157,10 @@ def vec_atoms():
         'quadnsd': (lambda a, e: a.quad(e, [[-2.0, 0.5], [0.5, -1.0]]), -1, 'vec2'),
         'quaddiag': (lambda a, e: a.quad(e, [[4.0, 0.0], [0.0, 1.0]]), 1, 'vec2'),
         # x'Qx with a NON-symmetric Q (the quadratic form of its symmetric part)
+        # exactly singular matrices (two zero eigenvalues / rank one)
+        'quadsing3': (lambda a, e: a.quad(e, [[0.0, 0.0, 0.0], [0.0, 0.0, 0.0], [0.0, 0.0, 1.0]]), 1, 'vec'),
+        'quadones3': (lambda a, e: a.quad(e, [[1.0, 1.0, 1.0], [1.0, 1.0, 1.0], [1.0, 1.0, 1.0]]), 1, 'vec'),
+        'quadrank1': (lambda a, e: a.quad(e, [[1.0, 1.0], [1.0, 1.0]]), 1, 'vec2'),
         'quadnonsym': (lambda a, e: a.quad(e, [[1.0, 2.0], [0.0, 1.0]]), 1, 'vec2'),
         'quadnonsym2': (lambda a, e: a.quad(e, [[2.0, 2.0], [0.0, 2.0]]), 1, 'vec2'),
     }
@@ -192,13 +212,28 @@ def core_specs():
     # the same descriptions through the dro front end (DecVar / DecAffine / DecConvex, dro.Model.do_math).  Members the
     # dro front end rejects loudly (summed exp/log, KL divergence, rsocone: TypeError / AttributeError) are not included.
     for sp in list(S):
-        if sp['atom'] in ('sumexp', 'sumlog', 'kldiv', 'rsocone', 'sumpexp', 'sumplog', 'sumexpb', 'sumlogb', 'latevar', 'sumexp2s', 'sumexp2sY', 'sumexpnest') \
+        if sp['atom'] in ('sumexp', 'sumlog', 'sumlogn', 'spsumexp', 'entsumexp', 'kldiv', 'rsocone', 'sumpexp', 'sumplog', 'sumexpb', 'sumlogb', 'latevar', 'sumexp2s', 'sumexp2sY', 'sumexpnest') \
                 or sp['form'].startswith('vector_y'):
             continue          # (expcone with an array as left argument: ValueError inside dro.ro_to_roc, loud)
         d = dict(sp)
         d['name'] = 'dro:' + sp['name']
         d['front'] = 'dro'
         S.append(d)
+    # the conic model class on its own (rsome.gcp.Model: class of the compiled model of ro/dro and of the shared set models),
+    # built in one go and with a formulation after every st() call (re-formulation must not leave anything behind)
+    for sp in list(S):
+        if sp.get('front') or sp['atom'] in ('maxof', 'latevar', 'bounds', 'kldiv', 'multi', 'intabs') or sp.get('may_raise'):
+            continue
+        if sp['atom'] in EXP_ATOMS or sp['atom'] in ('norm2', 'square', 'sumsqr', 'abs', 'norm1', 'expcone', 'rsocone'):
+            if sp['form'] not in ('le', 'le_scaled', 'le_affine_rhs', 'cons', 'vars', 'affine'):
+                continue
+            for tag, style in (('gcp', None), ('gcpR', dict(reformulate_each_st=True))):
+                d = dict(sp)
+                d['name'] = '%s:%s' % (tag, sp['name'])
+                d['front'] = 'gcp'
+                if style:
+                    d['style'] = style
+                S.append(d)
     S.append(dict(name='multi-atom', atom='multi', form='cons'))
     S.append(dict(name='int-abs', atom='intabs', form='cons'))
     return S
